@@ -1473,7 +1473,28 @@ def _popleft(I, ctx, recv, c, heap, args, kwargs, node):
 def _rotate(I, ctx, recv, c, heap, args, kwargs, node):
     r = b2i(args[0]) if args else 1
     if not isinstance(c, tuple):
-        raise PyvcUnsupported('rotate of symbolic-length deque')
+        # symbolic length: bring to prefix form, then decide per possible length l (0..cap):
+        #   new[j] = old[(j - r) mod l]  for j < l
+        d = to_dense(I, ctx, c)
+        if isinstance(d, tuple):
+            ctx.put(recv, d)
+            return _rotate(I, ctx, recv, d, heap, args, kwargs, node)
+        cap = d.cap
+        ln = znum(seq_len(d))
+        slots = []
+        for j in range(cap):
+            e = d.slots[j]
+            for l in range(cap, 1, -1):
+                if j >= l:
+                    continue
+                _, rm = I.floor_divmod(ctx, znum(r), z3.IntVal(l))
+                ej = d.slots[(j - (l - 1)) % l]
+                for s_ in range(l - 2, -1, -1):
+                    ej = merge_value(simp(rm == s_), d.slots[(j - s_) % l], ej)
+                e = merge_value(simp(ln == l), ej, e)
+            slots.append(e)
+        ctx.put(recv, SymSeq(slots, d.n))
+        return None
     n = len(c)
     if n == 0:
         return None
